@@ -1,7 +1,40 @@
 """C19 — a waker crossing the boundary wakes the original and is released once."""
+import os
+
+import common
+import gluerun
+import rtrun
+from common import VERIF, WORK
 from props import rtprops
 
 LEVEL = "exploration"
+
+
+def no_std_build(chk):
+    """the library built without its default features (no_std + task): concurrent clone / wake / drop of a handle retained from a poll"""
+    q = chk.tier == "quick"
+    ndir = os.path.join(VERIF, "nostd")
+    t = common.cargo_build(ndir, "nostd")
+    b = os.path.join(t, "release", "nostdwaker")
+    gluerun.run_bin(chk, [b, "8", "20000" if q else "200000", "3" if q else "8"], "no-std-native", ("C19:",), timeout=1200)
+    raced = 0
+    seeds = range(3) if q else range(12)
+    for sd in seeds:
+        r = common.run(["cargo", "+nightly", "miri", "run", "--offline", "--target-dir", os.path.join(WORK, "target-nostd-miri"), "--", "3", "12", "1"], cwd=ndir,
+                       env=common.env_with({"MIRIFLAGS": rtrun.MIRIFLAGS + " -Zmiri-seed=%d" % (chk.seed * 100 + sd)}), timeout=1200)
+        if "Data race detected" in r["err"] or "Undefined Behavior" in r["err"]:
+            first = next((l for l in r["err"].splitlines() if l.startswith("error:")), "error")
+            chk.violation("C19:no-std-build:miri", "no_std build, 3 threads cloning/dropping one retained handle under Miri (seed %d): %s" % (chk.seed * 100 + sd, first[:300]), dict(miri_seed=chk.seed * 100 + sd))
+            raced += 1
+            break
+        if '"k":"done"' not in r["out"]:
+            chk.incon("no_std waker workload did not finish under Miri: %s" % r["err"][-400:])
+            break
+        for rec in common.parse_jsonl(r["out"]):
+            if rec.get("k") == "violation":
+                chk.violation(rec["sig"], rec["detail"] + " (under Miri)", dict(miri_seed=chk.seed * 100 + sd))
+    chk.part("no-std-miri", schedule_seeds=len(list(seeds)), ub_reports=raced)
+    chk.floor("no_std handle operations", int(chk.parts.get("no-std-native", {}).get("no_std_handle_ops", 0)), 100000)
 
 
 def run(chk, replay=None):
@@ -22,6 +55,7 @@ def run(chk, replay=None):
         steps += [dict(instr="asan", part="asan", count=5000, args=dict(depth=4, maxlen=40)),
                   dict(instr="tsan", part="tsan", count=4000, shards=4, shard_arg=False, args=dict(what="random", maxlen=40))]
     rtprops.execute(chk, "c19", steps)
+    no_std_build(chk)
     rtprops.summarize(chk, ("scripts", "race_rounds"), ("distinct_cases",))
     chk.coverage["rule"] = ("scripts over {clone i->j, wake i, wake_by_ref i, drop i, send-to-thread i, end-of-poll} on 3 slots + the borrowed cx.waker(), interpreted inside a "
                             "Future/Stream/Sink polled through an opaque CGlue object, remainder run after the poll on retained wakers; every script up to the exhaustive depth "
@@ -29,7 +63,7 @@ def run(chk, replay=None):
                             "wakers whose data pointer is a small integer incl. null; a yield-once future behind one, two and three opaque objects polled with the context passed through; "
                             "a caller's waker whose clone() differs from itself (borrowed waker upgrading to an owned one): retained handles must wake and release the clone; "
                             "a family of 2-3 handles sharing one foreign-side waker released at the same instant from as many threads (drop / wake by value in every pattern), thousands of rounds "
-                            "natively and under Miri's scheduler with one seed per process. distinct = scripts in which at least one operation executed")
+                            "natively and under Miri's scheduler with one seed per process; the same concurrent release on the library's no_std build (default features off), natively and under Miri. distinct = scripts in which at least one operation executed")
     chk.floor("scripts with executed ops", chk.parts.get("native-exhaustive", {}).get("scripts_nontrivial", 0), 10000)
     chk.floor("miri scripts", chk.parts.get("miri-exhaustive", {}).get("scripts", 0), 500)
     chk.floor("upgrade-on-clone waker cases", chk.parts.get("native-upgrade-waker", {}).get("upgrade_waker_cases", 0), 4)
